@@ -21,6 +21,7 @@ mod edworld;
 mod engine;
 mod json;
 mod keys;
+mod procsupport;
 mod prng;
 mod publisher;
 mod transport;
@@ -55,6 +56,18 @@ fn main() {
         std::process::exit(2);
     }
     let mode = args[1].as_str();
+    if mode == "client" {
+        std::process::exit(procsupport::client(&args[2..]));
+    }
+    if mode == "mkrepo" {
+        std::process::exit(procsupport::mkrepo(&args[2..]));
+    }
+    if mode == "dumpkeys" {
+        std::process::exit(procsupport::dumpkeys(&args[2..]));
+    }
+    if mode == "verifyroot" {
+        std::process::exit(procsupport::verifyroot(&args[2..]));
+    }
     if mode == "genkeys" {
         println!("{}", keys::generate_pool(6, 6));
         return;
